@@ -1,6 +1,8 @@
 //! C06: bounded work and output.
-//! K: step counts of the Lean cost model of the backtick scanner vs the real `backtick-scan` counter
-//!    (hook H3) on the sublanguage where the model is exact (one paragraph over {a, `}).
+//! K: step counts of the Lean cost models vs the real step counters (hook H3) on the sublanguages where the models
+//!    are exact, by equality: backtick scanner (`backtick-scan`, one paragraph over {a, `}), code-dollar scanner
+//!    (`dollar-scan`, one paragraph over {$, `, a, \} with math_code on), process_emphasis (`emphasis-opener-search`,
+//!    one paragraph over {*, _, a, space}); the proved bounds are re-checked on every text.
 //! S (always full volume): deterministic step counters and output length on input families
 //!    fragment^n, prefix^n body suffix^n, (fragment LF)^n and tree-shaped repetitions, for every fragment up
 //!    to length 3 (quick) / 4 (thorough) over the Markdown-significant alphabet plus curated pathological
@@ -427,8 +429,11 @@ fn run_families(rep: &mut Report, fams: &[Family], optnames: &[&'static str], n1
 const OPTSETS: &[&str] = &["default", "gfm", "all"];
 
 pub fn run(cfg: &Cfg, rep: &mut Report) {
-    rep.rule = "S: for every fragment up to length 3 (quick) / 4 (thorough) over the alphabet *_`[]()<>!&\\|~^$:-#=+@./\"' LF a 1 (fragments of only a/1/space skipped) the families a.f^n, (f LF)^n and f^n.a.mirror(f)^n, plus ~150 curated shapes as nest/tree/repeat/lines/paragraph families; each measured at two sizes n (2^11, 2^12 quick; up to 2^16, 2^17 thorough; length-3/4 fragments screened at smaller n and re-measured at the large sizes when the slope exceeds 1.1) under default, GFM and all-extensions options; per measurement: 12 deterministic step counters (hook comrak::verif::steps) over parse + HTML + CommonMark + XML, output lengths, wall clock in an isolated worker. Oracle: log-log slope of total steps <= 1.25 (+0.10 tolerance), output <= 160 n + 4096. K: backtick-scan counter == Lean btSteps on one-paragraph texts over {a, `}.".into();
+    rep.rule = "S: for every fragment up to length 3 (quick) / 4 (thorough) over the alphabet *_`[]()<>!&\\|~^$:-#=+@./\"' LF a 1 (fragments of only a/1/space skipped) the families a.f^n, (f LF)^n and f^n.a.mirror(f)^n, plus ~150 curated shapes as nest/tree/repeat/lines/paragraph families; each measured at two sizes n (2^11, 2^12 quick; up to 2^16, 2^17 thorough; length-3/4 fragments screened at smaller n and re-measured at the large sizes when the slope exceeds 1.1) under default, GFM and all-extensions options; per measurement: 12 deterministic step counters (hook comrak::verif::steps) over parse + HTML + CommonMark + XML, output lengths, wall clock in an isolated worker. Oracle: log-log slope of total steps <= 1.25 (+0.10 tolerance), output <= 160 n + 4096. K (equality of step counts, exhaustive short + random texts): backtick-scan == Lean btStepsPos on one-paragraph texts over {a, `}; dollar-scan (math_code on) == Lean dlSteps on texts over {$, `, a, \\}, and == cdSteps of the pieces when every scan runs to the end; emphasis-opener-search == Lean emSteps (pinned loop) on texts over {*, _, a, space}; proved bounds (3n; 14 n + chars for the repaired loop and for the pinned one without an odd match) re-checked on every text.".into();
     k_stage(cfg, rep);
+    if std::env::var("CVH_C06_KONLY").is_ok() {
+        return;
+    }
     let (big1, big2) = if cfg.tier_thorough { (1usize << 16, 1usize << 17) } else { (1usize << 11, 1usize << 12) };
     let (scr1, scr2) = if cfg.tier_thorough { (1usize << 11, 1usize << 12) } else { (1usize << 9, 1usize << 10) };
     let passing = |fams: &[Family], slopes: &[(usize, &'static str, f64)], lo: f64| -> Vec<Family> {
@@ -474,15 +479,121 @@ pub fn run(cfg: &Cfg, rep: &mut Report) {
 
 // ------------------------------------------------------------------ K
 
-fn real_backtick_steps(text: &str) -> Option<u64> {
-    let o = Opts::default().to_comrak();
+fn real_steps(text: &str, o: &Opts, counter: usize) -> Option<u64> {
+    let o = o.to_comrak();
     catch_unwind(AssertUnwindSafe(|| {
         comrak::verif::reset();
         let arena = Arena::new();
         let _ = parse_document(&arena, text, &o);
-        comrak::verif::steps()[3]
+        comrak::verif::steps()[counter]
     }))
     .ok()
+}
+
+fn real_backtick_steps(text: &str) -> Option<u64> {
+    real_steps(text, &Opts::default(), 3)
+}
+
+/// K for `scan_to_closing_code_dollar`: the real `dollar-scan` counter (index 4) of a one-paragraph text 'a' + w,
+/// w over letters, `$`, backtick and backslash, with `math_code` on (and `math_dollars` off) == the Lean byte-level
+/// model `dlSteps`; and, when every executed scan runs to the end (no closer ahead), == the abstraction `cdSteps` of the pieces between the openers.
+fn k_cd<'a>(bt: &mut Batch<'a>, rep: &mut Report, body: Vec<u8>) {
+    let mut text = b"a".to_vec();
+    text.extend_from_slice(&body);
+    let s = String::from_utf8(text.clone()).unwrap();
+    let real = match real_steps(&s, &Opts::default().with("math_code", true), 4) {
+        Some(x) => x,
+        None => {
+            rep.count("k-skipped-panic");
+            return;
+        }
+    };
+    if contains(&body, b"$`") {
+        rep.nontrivial(&body);
+    }
+    let inp = format!("cd {}", hex(&text));
+    bt.push(format!("c06dl {}", hex(&text)), move |resp, rep| {
+        rep.k_evals += 1;
+        // answer: <dlSteps> <executed openers> <every scan ran to the end> <cdSteps of the pieces>
+        let f: Vec<&str> = resp.split(' ').collect();
+        let get = |i: usize| f.get(i).and_then(|x| x.parse::<u64>().ok());
+        let (model, openers, allfail, abs) = match (get(0), get(1), get(2), get(3)) {
+            (Some(a), Some(b), Some(c), Some(d)) => (a, b, c == 1, d),
+            _ => {
+                rep.disagree("dollar-steps-model", inp, format!("malformed model answer {:?}", resp));
+                return;
+            }
+        };
+        if model != real {
+            rep.disagree("dollar-steps-model", inp, format!("real dollar-scan steps = {} model dlSteps = {}", real, model));
+            return;
+        }
+        if allfail {
+            if openers >= 2 {
+                rep.count("k-code-dollar-texts-with-2+-unclosed-openers");
+            }
+            if abs != real {
+                rep.disagree("dollar-steps-abstraction", inp, format!("every scan runs to the end, real dollar-scan steps = {} but cdSteps(pieces) = {}", real, abs));
+            }
+        } else {
+            rep.count("k-code-dollar-texts-with-a-closer-found");
+        }
+    });
+}
+
+/// K for `process_emphasis`: the real `emphasis-opener-search` counter (index 5) of a one-paragraph text
+/// 'a' + w, w over letters, spaces, `*` and `_`, under default options == the Lean model `emSteps false`
+/// (the pinned code) run on the delimiter list of the text.
+fn k_em<'a>(bt: &mut Batch<'a>, rep: &mut Report, body: Vec<u8>) {
+    let mut text = b"a".to_vec();
+    text.extend_from_slice(&body);
+    let s = String::from_utf8(text.clone()).unwrap();
+    let real = match real_steps(&s, &Opts::default(), 5) {
+        Some(x) => x,
+        None => {
+            rep.count("k-skipped-panic");
+            return;
+        }
+    };
+    if body.iter().any(|c| *c == b'*' || *c == b'_') {
+        rep.nontrivial(&body);
+    }
+    let inp = format!("em {}", hex(&text));
+    bt.push(format!("c06em {}", hex(&text)), move |resp, rep| {
+        rep.k_evals += 1;
+        // answer: <steps as pinned> <steps with openers_bottom always updated> <delimiters> <delimiter characters>
+        let f: Vec<&str> = resp.split(' ').collect();
+        let get = |i: usize| f.get(i).and_then(|x| x.parse::<u64>().ok());
+        let (asis, fixed, n, chars) = match (get(0), get(1), get(2), get(3)) {
+            (Some(a), Some(b), Some(c), Some(d)) => (a, b, c, d),
+            _ => {
+                rep.disagree("emphasis-steps-model", inp, format!("model answer {:?} (fuel exhausted or malformed)", resp));
+                return;
+            }
+        };
+        if asis != real {
+            rep.disagree("emphasis-steps-model", inp, format!("real emphasis-opener-search steps = {} model emSteps = {}", real, asis));
+            return;
+        }
+        if asis != fixed {
+            rep.count("k-emphasis-pinned-differs-from-repaired");
+        }
+        // emphasis_linear: proved for the repaired loop, and (emphasis_linear_pinned) for the pinned one on texts without an odd match
+        let noodd = get(4) == Some(1);
+        if fixed > 14 * n + chars {
+            rep.disagree("emphasis-steps-bound", inp, format!("repaired-model steps {} exceed the proved bound 14 n + chars = {}", fixed, 14 * n + chars));
+        } else if noodd && real > 14 * n + chars {
+            rep.disagree("emphasis-steps-bound", inp, format!("no odd match in the text, yet real steps {} exceed the proved bound {}", real, 14 * n + chars));
+        } else if noodd && asis != fixed {
+            rep.disagree("emphasis-steps-bound", inp, format!("no odd match in the text, yet the pinned model ({}) and the repaired one ({}) differ", asis, fixed));
+        }
+        if !noodd {
+            rep.count("k-emphasis-texts-with-an-odd-match");
+        }
+        if real > 14 * n + chars {
+            rep.count("k-emphasis-real-above-linear-bound(rule-of-three)");
+        }
+    });
 }
 
 fn k_bt<'a>(bt: &mut Batch<'a>, rep: &mut Report, body: Vec<u8>) {
@@ -559,6 +670,90 @@ fn k_stage(cfg: &Cfg, rep: &mut Report) {
         }
         k_bt(&mut bt, rep, body);
     }
+    // ---- scan_to_closing_code_dollar
+    let maxlen = if cfg.tier_thorough { 9 } else { 8 };
+    let mut n_exh = 0;
+    const CD: &[u8] = b"$`a\\";
+    for len in 0..=maxlen {
+        for code in 0u32..(1u32 << (2 * len)) {
+            let body: Vec<u8> = (0..len).map(|i| CD[(code >> (2 * i) & 3) as usize]).collect();
+            k_cd(&mut bt, rep, body);
+            n_exh += 1;
+        }
+    }
+    rep.exhaustive_what.push(format!("code-dollar scanner: all {} texts 'a'+w, w over {{$,`,a,\\}} of length <= {}", n_exh, maxlen));
+    let n = if cfg.tier_thorough { 60_000 } else { 8_000 };
+    for i in 0..n {
+        let k = r.range(1, 50);
+        let mut body = vec![];
+        let closers = r.chance(1, 2);
+        for _ in 0..k {
+            match r.below(10) {
+                0 | 1 | 2 | 3 => body.extend_from_slice(b"$`"),
+                4 => body.push(b'$'),
+                5 => body.extend(std::iter::repeat(b'`').take(r.range(1, 3))),
+                6 => body.push(b'\\'),
+                7 if closers => body.extend_from_slice(b"`$"),
+                _ => body.extend(std::iter::repeat(b'a').take(r.range(1, 3))),
+            }
+            if !closers && body.last() == Some(&b'`') {
+                // no "`$" anywhere: every executed opener runs to the end (the sublanguage of `cdSteps`)
+                body.push(b'a');
+            }
+        }
+        if i < 3 {
+            rep.sample(format!("code-dollar text {:?}", show(&body)));
+        }
+        k_cd(&mut bt, rep, body);
+    }
+    // the family of the known finding at small sizes
+    for k in 1..=40usize {
+        k_cd(&mut bt, rep, b"$`a".repeat(k));
+    }
+    // ---- process_emphasis
+    let maxlen = if cfg.tier_thorough { 9 } else { 8 };
+    let mut n_exh = 0;
+    const EM: &[u8] = b"*_a ";
+    for len in 0..=maxlen {
+        for code in 0u32..(1u32 << (2 * len)) {
+            let body: Vec<u8> = (0..len).map(|i| EM[(code >> (2 * i) & 3) as usize]).collect();
+            k_em(&mut bt, rep, body);
+            n_exh += 1;
+        }
+    }
+    rep.exhaustive_what.push(format!("process_emphasis: all {} texts 'a'+w, w over {{*,_,a,space}} of length <= {}", n_exh, maxlen));
+    let n = if cfg.tier_thorough { 60_000 } else { 8_000 };
+    for i in 0..n {
+        // many delimiter runs of lengths 1..7 in all flanking situations
+        let k = r.range(1, 60);
+        let mut body = vec![];
+        let one = r.chance(1, 3);
+        for _ in 0..k {
+            match r.below(8) {
+                0 | 1 => body.push(b'a'),
+                2 => body.push(b' '),
+                3 => body.extend_from_slice(b"a "),
+                _ => {
+                    let c = if one || r.chance(2, 3) { b'*' } else { b'_' };
+                    let run = match r.below(6) {
+                        0 => r.range(3, 7),
+                        1 | 2 => 2,
+                        _ => 1,
+                    };
+                    body.extend(std::iter::repeat(c).take(run));
+                }
+            }
+        }
+        if i < 3 {
+            rep.sample(format!("emphasis text {:?}", show(&body)));
+        }
+        k_em(&mut bt, rep, body);
+    }
+    // the rule-of-three family of the known finding, small sizes (model == code on it; the growth is in S)
+    for k in 1..=40usize {
+        k_em(&mut bt, rep, b" *a **b".repeat(k)[1..].to_vec());
+        k_em(&mut bt, rep, b"**b*a ".repeat(k));
+    }
     bt.run(&m, rep);
 }
 
@@ -584,7 +779,21 @@ pub fn replay(kind: &str, input: &str) -> Result<Option<String>, String> {
             k_bt(&mut bt, &mut rep, t[1.min(t.len())..].to_vec());
             bt.run(&m, &mut rep);
         }
-        _ => return Err("bad replay input (want: pair <optset> <shape> <hex frag> <hex close> <n1> <n2> | bt <hex>)".into()),
+        Some(&"cd") if toks.len() >= 2 => {
+            let m = Model::from_env();
+            let mut bt = Batch::new();
+            let t = crate::util::unhex(toks[1]).ok_or("bad hex")?;
+            k_cd(&mut bt, &mut rep, t[1.min(t.len())..].to_vec());
+            bt.run(&m, &mut rep);
+        }
+        Some(&"em") if toks.len() >= 2 => {
+            let m = Model::from_env();
+            let mut bt = Batch::new();
+            let t = crate::util::unhex(toks[1]).ok_or("bad hex")?;
+            k_em(&mut bt, &mut rep, t[1.min(t.len())..].to_vec());
+            bt.run(&m, &mut rep);
+        }
+        _ => return Err("bad replay input (want: pair <optset> <shape> <hex frag> <hex close> <n1> <n2> | bt <hex> | em <hex> | cd <hex>)".into()),
     }
     for c in rep.s_fail.iter().chain(rep.k_disagree.iter()) {
         if kind.is_empty() || c.kind == kind {
